@@ -520,6 +520,8 @@ class DeclaredVsExtracted(Stream):
         fl = ["style-" + s["style"], "version-" + s["version_from"], "reqs-" + s["reqs_from"], "here-" + s["here"], "import-" + s["setup_import"], "cwd-" + case["cwd"]]
         if s["extras"]:
             fl.append("extras")
+        if s.get("extras_as_text") and s["style"] == "kwargs":
+            fl.append("extras-given-as-text")
         if s.get("marker_extra") and s["style"] == "kwargs":
             fl.append("marker-extra")
         if s.get("cond_dir"):
